@@ -46,10 +46,6 @@ def gen_call(rng, frame):
         rows = [rng.randrange(n)] * rng.randint(2, 4)
     else:
         rows = [rng.randrange(n) for _ in range(rng.randint(1, 9))]
-    for col in frame['cols']:
-        # a selection in which a plain embedding column has no vector at all has no width (outside the domain)
-        if col['stype'] == 'embedding' and all(col['cells'][i] is None for i in rows):
-            rows = rows + [next(i for i in range(n) if col['cells'][i] is not None)]
     call = {'kind': kind, 'rows': rows, 'drop_target': frame['target'] is not None and rng.random() < 0.3,
             'how': rng.choice(['iloc', 'iloc', 'fresh']), 'inject': []}
     if rng.random() < 0.45:
